@@ -115,10 +115,16 @@ def r13_iter(ctx):
         ctx.require(ok, 'R13.3', f'length(type {type_})', ctx.where(ln), f'length is {outs2}, the cumulative time of the last message is {tot!r}',
                     construct=f'{ln.qname}::sum')
     # type 2 refuses both
+    # (whatever it holds: tracks with messages, no track at all, tracks without messages)
+    contents = (('one track', lambda: [_track(ai, ctx)]), ('no tracks', lambda: []), ('an empty track', lambda: [AList([], 'MidiTrack')]),
+                ('two empty tracks', lambda: [AList([], 'MidiTrack'), AList([], 'MidiTrack')]),
+                ('an empty and a full track', lambda: [AList([], 'MidiTrack'), _track(ai, ctx)]))
     for fn, label in ((it, 'iteration'), (ln, 'length')):
-        outs = ai.explore(lambda: ai.call_function(fn, [_file(ctx, ai, 2, AList([_track(ai, ctx)], 'list'), P('B'))], {}))
-        ok = bool(outs) and all(o_.kind == 'raise' and o_.exc in ('TypeError', 'ValueError') and not any(e[0] == 'yield' for e in o_.log) for o_ in outs)
-        ctx.require(ok, 'R13.3', f'type2.{label}', ctx.where(fn), f'a type 2 file must refuse {label}: {outs}', construct=f'{fn.qname}::type2')
+        for cname, mk in contents:
+            outs = ai.explore(lambda: ai.call_function(fn, [_file(ctx, ai, 2, AList(mk(), 'list'), P('B'))], {}))
+            ok = bool(outs) and all(o_.kind == 'raise' and o_.exc in ('TypeError', 'ValueError') and not any(e[0] == 'yield' for e in o_.log) for o_ in outs)
+            ctx.require(ok, 'R13.3', f'type2.{label}({cname})', ctx.where(fn), f'a type 2 file ({cname}) must refuse {label}: {outs}',
+                        construct=f'{fn.qname}::type2')
     dt = ctx.f.table(MF, 'DEFAULT_TEMPO')
     ctx.require(dt == 500000, 'R13.1', 'DEFAULT_TEMPO', f'{it.module.relpath}:1 DEFAULT_TEMPO', f'default tempo is {dt}, SMF says 500000 us per beat',
                 construct=f'{it.module.relpath}::DEFAULT_TEMPO')
